@@ -1,0 +1,22 @@
+//go:build verif
+
+package meta
+
+// Machine-checked contracts (govc, see /verif/DESIGN.md). Comment-only file.
+
+// ---- C14 (metabase layer): outside opening, initialisation and version migration, a
+// read-write bolt transaction is started only on a path where the DB's mode was found
+// writable (Mode.ReadOnly() answered false).
+
+//@ ghost pred metaWritable() bool
+
+//@ callrule c14_meta_mode_answer in *
+//@   property C14
+//@   callee (mode.Mode).ReadOnly
+//@   pureeffect
+//@   defines !result ==> metaWritable()
+
+//@ callrule c14_meta_write_tx_only_when_writable in *, !(*DB).Init, !(*DB).init*, !(*DB).Reset, !(*DB).checkVersion*, !migrate*, !(*DB).Open, !(*DB).openBolt, !getVersion, !updateVersion, !updateContainersInterruptable, !(*DB).SetMode
+//@   property C14
+//@   callee (*bbolt.DB).Update, (*bbolt.DB).Batch
+//@   requires [write_transaction_only_in_writable_mode] metaWritable()
